@@ -257,6 +257,9 @@ class CallListerVisitor(ast.NodeVisitor):
                 self.visit(name)
 
     def visit_FunctionDef(self, node):
+        name = getattr(node, 'name', None) # lambdas do not bind a name
+        if name is not None:
+            self.namespace[name] = Unknown(node)
         self.namespace = Namespace(self.namespace)
         self.process_parameters(node.args)
         body = node.body
@@ -269,6 +272,29 @@ class CallListerVisitor(ast.NodeVisitor):
         self.namespace = self.namespace.parent
 
     visit_Lambda = visit_FunctionDef
+
+    def visit_ClassDef(self, node):
+        self.namespace[node.name] = Unknown(node)
+        self.generic_visit(node)
+
+    def visit_Import(self, node):
+        for alias in node.names:
+            name = alias.asname or alias.name.partition('.')[0]
+            self.namespace[name] = Unknown(node)
+
+    visit_ImportFrom = visit_Import
+
+    def visit_MatchAs(self, node):
+        if node.name is not None:
+            self.namespace[node.name] = Unknown(node)
+        self.generic_visit(node)
+
+    visit_MatchStar = visit_MatchAs
+
+    def visit_MatchMapping(self, node):
+        if node.rest is not None:
+            self.namespace[node.rest] = Unknown(node)
+        self.generic_visit(node)
 
     def visit_Nonlocal(self, node):
         for name in node.names:
